@@ -210,9 +210,21 @@ func runC17(ctx *h.Ctx) int {
 		prof := profFull()
 		g := spec.NewGen(k.R, prof)
 		prog := g.FullProgram(1 + k.R.IntN(3))
-		src := spec.Source(prog)
+		// scrambled layouts start with blank lines / comments now and then: line numbers in markers and
+		// errors must be those of the file as given
+		src := layoutOf(k, prog, 0.5).Src
+		if k.R.IntN(3) == 0 {
+			src = "\n\n  \n" + src
+		}
 		if k.R.IntN(4) != 0 {
 			src += "\ntext TxtOpt { format(\"Hello there {PLAYER}, this is a fairly long line of text that has to be wrapped somewhere.\") }\n"
+		}
+		if k.R.IntN(2) == 0 {
+			// percent signs are ordinary characters
+			src += "\ntext TxtPct { \"100% sure, %d items, 50%% off %s$\" }\nraw `\nRawPct:\n\t.string \"%d%$\"\n`\n"
+		}
+		if k.R.IntN(6) == 0 {
+			src += "\nscript ScrErr { break }\n" // an error whose line must match too
 		}
 		k.SetSource(src)
 		dir := workDir(k)
